@@ -2293,7 +2293,7 @@ func (p *Prog) staleReader() []Ob {
 		}
 		return p.reaches(g, func(h *ssa.Function) bool {
 			for _, o := range p.fsOps(h) {
-				if (o.op == "REMOVE" && o.a.kind == "seg") || (o.op == "RENAME" && o.b.kind == "seg") {
+				if (o.op == "REMOVE" && o.a.kind == "seg" && o.a.fld == "Log") || (o.op == "RENAME" && o.b.kind == "seg" && o.b.fld == "Log") {
 					return true
 				}
 			}
@@ -2532,4 +2532,187 @@ func (p *Prog) headerFlagsExact() []Ob {
 		obs = append(obs, Ob{Rule: "R9", Inst: "h:header-flag-exact", Props: []string{"C13", "C04", "C11"}, Pos: "-", Status: Undecided, Msg: "no comparison of a recorded column flag with index.Params found in the index package"})
 	}
 	return obs
+}
+
+// ---------------------------------------------------------------------------
+// R2 O10 RECOVER-BEFORE-MIGRATE (C05, C17): with Options.Recover the head is repaired before anything
+// reads it to the end; the eager migration scans every segment including the head, so in Open the
+// call of Segment.Recover lies on every path to Segment.Migrate.
+func (p *Prog) recoverBeforeMigrate() []Ob {
+	open := p.R.Open
+	rec, mig := p.methodOf(p.R.Segment, "Recover"), p.methodOf(p.R.Segment, "Migrate")
+	ob := Ob{Rule: "R2", Inst: "O10:Open:recover-before-migrate", Props: []string{"C05", "C17"}, Pos: "-", Func: funcLabel(open), Nontrivial: true}
+	if open == nil || rec == nil || mig == nil {
+		ob.Status, ob.Msg = Undecided, "Open, Segment.Recover or Segment.Migrate not found"
+		return []Ob{ob}
+	}
+	assume := Assume{"Recover": true, "Version.EagerVersionMigrate": true, "Readonly": false}
+	succ := func(b *ssa.BasicBlock) []*ssa.BasicBlock { return p.prunedSuccs(b, assume) }
+	var recBlocks, migBlocks []*ssa.BasicBlock
+	var migCall *ssa.Call
+	for _, b := range open.Blocks {
+		for _, ins := range b.Instrs {
+			if c, ok := ins.(*ssa.Call); ok {
+				switch c.Common().StaticCallee() {
+				case rec:
+					recBlocks = append(recBlocks, b)
+				case mig:
+					migBlocks = append(migBlocks, b)
+					migCall = c
+				}
+			}
+		}
+	}
+	if len(recBlocks) == 0 || len(migBlocks) == 0 {
+		ob.Status, ob.Msg = Undecided, "Open does not call both Segment.Recover and Segment.Migrate"
+		return []Ob{ob}
+	}
+	ob.Pos = p.at(migCall)
+	avoid := map[*ssa.BasicBlock]bool{}
+	for _, b := range recBlocks {
+		avoid[b] = true
+	}
+	seen := map[*ssa.BasicBlock]bool{}
+	work := []*ssa.BasicBlock{open.Blocks[0]}
+	for len(work) > 0 {
+		x := work[len(work)-1]
+		work = work[:len(work)-1]
+		if seen[x] || avoid[x] {
+			continue
+		}
+		seen[x] = true
+		work = append(work, succ(x)...)
+	}
+	bypass := false
+	for _, b := range migBlocks {
+		if seen[b] {
+			bypass = true
+		}
+	}
+	if bypass {
+		ob.Status, ob.Msg = Violated, "with Recover and EagerVersionMigrate both set, Open can reach Segment.Migrate without having recovered the head: the migration scans a head with a torn tail, fails, and has already removed the head's index"
+	} else {
+		ob.Status, ob.Msg = Discharged, "with Recover and EagerVersionMigrate both set, every path of Open to Segment.Migrate passes Segment.Recover of the head"
+	}
+	return []Ob{ob}
+}
+
+// R32b OPEN-IS-LAZY (C14): with default options Open reads the log file of the head only; it does
+// not open the log of every segment it finds (a damaged closed segment must not keep the log from
+// opening, and only calls that need that segment may fail).
+func (p *Prog) openIsLazy() []Ob {
+	open := p.R.Open
+	ob := Ob{Rule: "R32", Inst: "b:open-is-lazy", Props: []string{"C14"}, Pos: "-", Func: funcLabel(open), Nontrivial: true}
+	if open == nil {
+		ob.Status, ob.Msg = Undecided, "Open not found"
+		return []Ob{ob}
+	}
+	ob.Pos = p.posStr(open.Pos())
+	opensLog := func(g *ssa.Function) bool {
+		n := fullName(g)
+		return n == pkgMessage+".OpenReader" || n == pkgMessage+".OpenReaderMem" || n == pkgMessage+".OpenWriter"
+	}
+	var bad []string
+	for _, ro := range []bool{false, true} {
+		assume := Assume{"Recover": false, "Check": false, "Version.EagerVersionMigrate": false, "Readonly": ro}
+		reach := reachableBlocks(open, func(b *ssa.BasicBlock) []*ssa.BasicBlock { return p.prunedSuccs(b, assume) })
+		for _, b := range open.Blocks {
+			if !reach[b] {
+				continue
+			}
+			if _, loop := innermostLoop(b); loop == nil {
+				continue
+			}
+			for _, ins := range b.Instrs {
+				if c, ok := ins.(ssa.CallInstruction); ok && p.callReaches(c, opensLog) {
+					bad = append(bad, fmt.Sprintf("%s: inside a loop over the segments, with default options (Readonly=%v), %s opens a segment's log file", p.at(c), ro, calleeName(c.Common())))
+				}
+			}
+		}
+	}
+	bad = uniqSorted(bad)
+	if len(bad) > 0 {
+		ob.Status, ob.Msg, ob.Path = Violated, "Open reads the log file of every segment: damage in one closed segment keeps the whole log from opening", bad
+	} else {
+		ob.Status, ob.Msg = Discharged, "with default options no call inside a loop of Open opens a segment's log file (only the head's is opened)"
+	}
+	return []Ob{ob}
+}
+
+// ---------------------------------------------------------------------------
+// R2 O11 WHO-MAY-REMOVE-A-SEGMENT (C02, C01, C05): the log file of a segment is removed only by the
+// delete-by-rewrite paths (a head writer's or segment reader's Delete, and the clean-up of a rewrite's
+// own temporary segment). No maintenance entry point (Recover, Check, Stat, Backup, Migrate, Open, GC)
+// reaches the removal of a segment's log: an empty head's file name is the only record of the next
+// offset, and "nothing could be restored" is not "there was nothing".
+func (p *Prog) whoMayRemoveSegment() []Ob {
+	r := p.R
+	removesLog := func(h *ssa.Function) bool {
+		for _, o := range p.fsOps(h) {
+			if o.op == "REMOVE" && o.a.kind == "seg" && o.a.fld == "Log" {
+				return true
+			}
+		}
+		return false
+	}
+	ob := Ob{Rule: "R2", Inst: "O11:who-may-remove-a-segment", Props: []string{"C02", "C01", "C05"}, Pos: "-", Nontrivial: true}
+	var removers []*ssa.Function
+	for _, fn := range p.Funcs {
+		if srcFunc(fn) && removesLog(fn) {
+			removers = append(removers, fn)
+		}
+	}
+	if len(removers) == 0 {
+		ob.Status, ob.Msg = Undecided, "no function removes a segment's log file"
+		return []Ob{ob}
+	}
+	isRemover := func(h *ssa.Function) bool {
+		for _, x := range removers {
+			if x == h {
+				return true
+			}
+		}
+		return false
+	}
+	// who calls a remover directly
+	var bad []string
+	sites := 0
+	for _, fn := range p.Funcs {
+		if !srcFunc(fn) || isRemover(fn) {
+			continue
+		}
+		for _, b := range fn.Blocks {
+			for _, ins := range b.Instrs {
+				c, ok := ins.(ssa.CallInstruction)
+				if !ok {
+					continue
+				}
+				g := c.Common().StaticCallee()
+				if g == nil || !isRemover(g) {
+					continue
+				}
+				sites++
+				rn := recvNamed(fn)
+				allowed := rn == r.HeadWriter || rn == r.SegReader
+				// the clean-up of a rewrite's own temporary segment: the segment removed is the one
+				// embedded in a RewriteSegment
+				if len(c.Common().Args) > 0 {
+					if f, base := loadedField(canon(c.Common().Args[0])); f != nil && namedOf(f.Type()) == r.Segment && namedOf(derefPtr(base.Type())) == r.RewriteSegment {
+						allowed = true
+					}
+				}
+				if !allowed {
+					bad = append(bad, fmt.Sprintf("%s: %s removes a segment through %s", p.at(c), funcLabel(fn), shortCallee(g)))
+				}
+			}
+		}
+	}
+	sort.Strings(bad)
+	ob.Pos = p.posStr(removers[0].Pos())
+	if len(bad) > 0 {
+		ob.Status, ob.Msg, ob.Path = Violated, "a segment's log file is removed outside delete-by-rewrite: a maintenance path that drops a segment (for instance an empty head, whose name is the only record of the next offset) makes offsets reusable", bad
+	} else {
+		ob.Status, ob.Msg = Discharged, fmt.Sprintf("%d call sites of the %d function(s) that remove a segment's log, all in a head writer's / segment reader's Delete or a rewrite's own clean-up", sites, len(removers))
+	}
+	return []Ob{ob}
 }
